@@ -5,6 +5,7 @@ import (
 	"bytes"
 	"context"
 	"fmt"
+	"net/http"
 	"sort"
 	"sync"
 	"testing"
@@ -41,11 +42,11 @@ type Case struct {
 func gen(t *rapid.T) Case {
 	c := Case{Layers: rapid.IntRange(1, 3).Draw(t, "layers"), Store: rapid.SampledFrom([]string{"memory", "db"}).Draw(t, "store")}
 	c.Cfg = fullstack.Config{Store: c.Store, FSCache: "directory", HTTPCache: "directory", LRUEntries: rapid.IntRange(1, 3).Draw(t, "lru"), MaxFds: rapid.IntRange(1, 3).Draw(t, "fds"),
-		Direct: rapid.Bool().Draw(t, "direct"), SyncAdd: true, RegChunk: rapid.SampledFrom([]int64{0, 512, 100}).Draw(t, "regchunk"), TTLSec: 1, Opaque: "trusted"}
+		Direct: rapid.Bool().Draw(t, "direct"), SyncAdd: true, RegChunk: rapid.SampledFrom([]int64{0, 512, 100, 64}).Draw(t, "regchunk"), TTLSec: 1, Opaque: "trusted"}
 	sleeps := 0
 	n := rapid.IntRange(3, 14).Draw(t, "nsteps")
 	for i := 0; i < n; i++ {
-		s := Step{Op: rapid.SampledFrom([]string{"resolve", "resolve", "resolve", "read", "read", "read", "done", "close", "sleep", "sleep", "down", "up", "check", "refresh", "failresolve"}).Draw(t, "op")}
+		s := Step{Op: rapid.SampledFrom([]string{"resolve", "resolve", "resolve", "read", "read", "read", "done", "close", "sleep", "sleep", "down", "up", "check", "refresh", "badrefresh", "failresolve"}).Draw(t, "op")}
 		if s.Op == "sleep" {
 			if sleeps >= 2 {
 				s.Op = "read"
@@ -58,6 +59,11 @@ func gen(t *rapid.T) Case {
 		s.Holder = rapid.IntRange(0, 11).Draw(t, "holder")
 		s.File = rapid.IntRange(0, 5).Draw(t, "file")
 		c.Steps = append(c.Steps, s)
+		if s.Op == "resolve" && rapid.IntRange(0, 3).Draw(t, "refreshfirst") == 0 {
+			// the newest holder's layer is refreshed against a bad source before it has read anything
+			c.Steps = append(c.Steps, Step{Op: "badrefresh", Holder: -1, File: rapid.IntRange(0, 5).Draw(t, "extra")},
+				Step{Op: "read", Holder: -1, File: rapid.IntRange(0, 5).Draw(t, "bfile")}, Step{Op: "read", Holder: -1, File: rapid.IntRange(0, 5).Draw(t, "bfile2")})
+		}
 		if (s.Op == "sleep" || s.Op == "close") && rapid.IntRange(0, 3).Draw(t, "readafter") > 0 {
 			// what the property is about: a holder reads after its cache entry expired / was evicted by somebody else
 			c.Steps = append(c.Steps, Step{Op: "read", Holder: rapid.IntRange(0, 11).Draw(t, "rholder"), File: rapid.IntRange(0, 5).Draw(t, "rfile")})
@@ -67,6 +73,7 @@ func gen(t *rapid.T) Case {
 }
 
 type layerData struct {
+	blob  []byte
 	desc  ocispec.Descriptor
 	toc   digest.Digest
 	files map[string][]byte
@@ -120,6 +127,13 @@ func run(c Case, ev *pbt.Ev) error {
 	}
 	defer st.Close()
 	ttl := time.Duration(c.Cfg.TTLSec) * time.Second
+	badMirror := memreg.New()
+	st.Reg.Decide = func(q *memreg.Req) memreg.Action {
+		if q.Host == "bad-mirror.example" {
+			return memreg.Action{Kind: "raw", Raw: func(req *http.Request, _ []byte) (*http.Response, error) { return badMirror.RoundTrip(req) }}
+		}
+		return memreg.Action{}
+	}
 	var lds []*layerData
 	for i := 0; i < c.Layers; i++ {
 		res, err := buildLayer(i)
@@ -134,7 +148,7 @@ func run(c Case, ev *pbt.Ev) error {
 		if err != nil {
 			return pbt.Inconclusive("%v", err)
 		}
-		ld := &layerData{desc: st.AddBlob(res.Blob, nil), toc: digest.Digest(res.TOCDigest), files: map[string][]byte{}}
+		ld := &layerData{blob: res.Blob, desc: st.AddBlob(res.Blob, nil), toc: digest.Digest(res.TOCDigest), files: map[string][]byte{}}
 		for n, f := range fl {
 			if len(f.Content) > 0 && n[0] != '.' {
 				ld.files[n] = f.Content
@@ -322,7 +336,7 @@ func run(c Case, ev *pbt.Ev) error {
 				ev.Skipped++
 				continue
 			}
-			h := holders[s.Holder%len(holders)]
+			h := holders[((s.Holder%len(holders))+len(holders))%len(holders)]
 			if h.released {
 				// stale handle: must fail cleanly or return correct bytes, never crash
 				if err := checkRead(i, h, s.File, false); err != nil {
@@ -342,7 +356,7 @@ func run(c Case, ev *pbt.Ev) error {
 				ev.Skipped++
 				continue
 			}
-			h := holders[s.Holder%len(holders)]
+			h := holders[((s.Holder%len(holders))+len(holders))%len(holders)]
 			if s.Op == "done" {
 				h.l.Done()
 			} else {
@@ -373,16 +387,29 @@ func run(c Case, ev *pbt.Ev) error {
 				ev.Skipped++
 				continue
 			}
-			h := holders[s.Holder%len(holders)]
+			h := holders[((s.Holder%len(holders))+len(holders))%len(holders)]
 			if err := h.l.Check(); err != nil && !h.released && !down {
 				return pbt.Violf("check-failed", "step %d: Check on a held layer with a healthy registry: %v", i, err)
 			}
+		case "badrefresh":
+			// a connectivity refresh that is answered by a source serving another blob (a broken mirror): whether it
+			// is refused or not, the holder's layer keeps serving reads afterwards (checked by the read steps)
+			if len(holders) == 0 {
+				ev.Skipped++
+				continue
+			}
+			h := holders[((s.Holder%len(holders))+len(holders))%len(holders)]
+			ld := lds[h.layer]
+			// (the mirror keeps answering with its own, shorter blob for as long as anybody asks it)
+			badMirror.AddBlob(ld.desc.Digest.String(), ld.blob[:len(ld.blob)/2+s.File])
+			h.l.Refresh(context.Background(), st.Reg.Hosts("bad-mirror.example"), st.Ref, ld.desc)
+			ev.Class("refresh-answered-with-other-blob")
 		case "refresh":
 			if len(holders) == 0 {
 				ev.Skipped++
 				continue
 			}
-			h := holders[s.Holder%len(holders)]
+			h := holders[((s.Holder%len(holders))+len(holders))%len(holders)]
 			if err := h.l.Refresh(context.Background(), st.Reg.Hosts(), st.Ref, lds[h.layer].desc); err != nil && !h.released && !down {
 				return pbt.Violf("refresh-failed", "step %d: Refresh on a held layer with a healthy registry: %v", i, err)
 			}
